@@ -87,6 +87,18 @@ def scenarios(root, spec):
             return {k: arr_obs(v) if isinstance(v, np.ndarray) else repr(v) for k, v in out.items()}
         return run
 
+    def mand_twice(name, serial, fields, kws):
+        # one Mandoline object used for several slices (worker arguments are pickled in pool mode, shared in serial mode)
+        def run(w):
+            from amr_kitchen.mandoline.mandoline import Mandoline
+            m = Mandoline(I(name), fields=fields, serial=serial, verbose=0)
+            obs = {}
+            for n, kw in enumerate(kws):
+                out = m.slice(fformat="return", **kw)
+                obs.update({f"{n}:{k}": arr_obs(v) if isinstance(v, np.ndarray) else repr(v) for k, v in out.items()})
+            return obs
+        return run
+
     S = {
         "reader": reader,
         "taste": taste,
@@ -98,6 +110,10 @@ def scenarios(root, spec):
         "mandoline3d-serial": mand_ret("plt00010", True, fields=["density", "grid_level"], normal=1, pos=None),
         "mandoline2d-pool": mand_ret("plt2d", False, fields=["temp", "grid_level"]),
         "mandoline2d-serial": mand_ret("plt2d", True, fields=["temp", "grid_level"]),
+        "mandoline2d-twice-pool": mand_twice("plt2d", False, ["temp", "grid_level"], [{}, {}, {}]),
+        "mandoline2d-twice-serial": mand_twice("plt2d", True, ["temp", "grid_level"], [{}, {}, {}]),
+        "mandoline3d-twice-pool": mand_twice("plt00010", False, ["density"], [{"normal": 0, "pos": None}, {"normal": 2, "pos": None}, {"normal": 0, "pos": None}]),
+        "mandoline3d-twice-serial": mand_twice("plt00010", True, ["density"], [{"normal": 0, "pos": None}, {"normal": 2, "pos": None}, {"normal": 0, "pos": None}]),
         "mandoline-plotfile": tree(lambda w: tools.mandoline(I("plt00010"), "plotfile", os.path.join(w, "o"), ["temp"], 0, None)),
         "pestle": lambda w: {"integral": fbits(tools.pestle(I("plt00010"), "density", None, True))},
         "whip": tree(lambda w: tools.whip(I("plt00010"), "temp", os.path.join(w, "o"))),
@@ -106,7 +122,8 @@ def scenarios(root, spec):
     return S
 
 
-SERIAL_OF = {"chef-pool": "chef-serial", "mandoline3d-pool": "mandoline3d-serial", "mandoline2d-pool": "mandoline2d-serial"}
+SERIAL_OF = {"chef-pool": "chef-serial", "mandoline3d-pool": "mandoline3d-serial", "mandoline2d-pool": "mandoline2d-serial",
+             "mandoline2d-twice-pool": "mandoline2d-twice-serial", "mandoline3d-twice-pool": "mandoline3d-twice-serial"}
 
 
 def run_scn(ctx, fn, start, finish, pool_cls=None, audit_tasks=False):
